@@ -19,7 +19,8 @@ import regen
 
 CANDIDATES = ['plain.h', 'sp ace.h', 'ha#sh.h', 'do$llar.h', 'per%cent.h',
               'ti~lde.h', 'pa(ren).h', 'eq=ual.h', 'com,ma.h', 'co:lon.h',
-              'am&p.h', "quo'te.h", 'st*ar.h', 'br[ack].h', 'sub dir/in.h']
+              'am&p.h', "quo'te.h", 'st*ar.h', 'br[ack].h', 'sub dir/in.h',
+              'p%c%t.h', 'inc%1/conf%.h', '%%.h']
 
 
 HSET = {False: 'H = {"h1", "h2", "h3"} Pch = ""',
